@@ -9,7 +9,9 @@
    preserved): the set of all such tr is the set of all interleavings of the source tasks.
    [src_view os] folds ONE source's own events: None = not registered, Some (last snapshot,
    last usability report).  Theorems hold for every world W (any selection / steering / vote
-   function) and every schedule -- the first three even for ill-formed ones. *)
+   function) and every schedule -- the first three even for ill-formed ones.  The wrapper's timer
+   (time_update) is an extra event kind of the loop model [thandle]; it never changes the source
+   map (last three theorems). *)
 From V Require Import Model.Select Model.MsgLoop Proofs.MsgLoop.
 
 (* Whatever the interleaving, what the controller holds for source j is determined by the
@@ -57,6 +59,24 @@ Theorem C37_per_source_order : forall W scripts tr j sc,
   map snd (filter (fun p => fst p =? j) (stored_log W ctl_init tr)) = measures sc.
 Proof. exact per_source_order. Qed.
 
+(* Timer expiries (TimeUpdate events of the wrapper's loop, Model/MsgLoop.v [thandle]) are invisible
+   to the source map: after any schedule of messages and timer expiries the map is the one after
+   the schedule's messages alone, so every theorem above reads on [msgs tr] ... *)
+Theorem C37_timer_leaves_sources_alone : forall W tr,
+  c_map (l_ctl (tstate_after W tr)) = c_map (state_after W (msgs tr)).
+Proof. exact tstate_map. Qed.
+
+(* ... e.g. the per-source view and the candidates of a selection, with timer expiries anywhere. *)
+Theorem C37_state_is_per_source_with_timer : forall W j tr,
+  view_of j (l_ctl (tstate_after W tr)) = src_view (ops_of j (msgs tr)).
+Proof. exact view_tstate_after. Qed.
+
+Theorem C37_candidates_with_timer : forall W pre ev L,
+  select_input (l_ctl (tstate_after W pre)) ev = Some L ->
+  forall k, In k (map snap_core L) <->
+            exists j, src_view (ops_of j (msgs (pre ++ [Msg ev]))) = Some (Some k, true).
+Proof. exact select_input_spec_timed. Qed.
+
 (* non-vacuity: two sources, an interleaving of their scripts, both usable with snapshots at the
    third-last event; after 1 is dropped a late message for 1 is ignored *)
 Example C37_nonvacuous :
@@ -69,7 +89,7 @@ Example C37_nonvacuous :
   let W := real_world (mkCfg 1 100) in
   (forall i, ops_of i tr = match scripts i with Some sc => task_events sc | None => [] end)
   /\ option_map (map snap_serial) (select_input (state_after W (firstn 6 tr)) (2, Some (Measure (s 2 9)))) = Some [9; 7]
-  /\ snd (handle W (state_after W (firstn 6 tr)) (2, Some (Measure (s 2 9)))) = mkOut [2; 30] (Some [2; 1])
+  /\ snd (handle W (state_after W (firstn 6 tr)) (2, Some (Measure (s 2 9)))) = mkOut [2; 30] (Some [2; 1]) false
   /\ stored_log W ctl_init tr = [(2, 8); (1, 7); (2, 9)]
   /\ handle W (state_after W tr) (1, Some (Measure (s 1 10))) = (state_after W tr, out0).
 Proof.
@@ -86,3 +106,6 @@ Print Assumptions C37_used_sources_are_candidates.
 Print Assumptions C37_ignored_when_unregistered.
 Print Assumptions C37_after_removal.
 Print Assumptions C37_per_source_order.
+Print Assumptions C37_timer_leaves_sources_alone.
+Print Assumptions C37_state_is_per_source_with_timer.
+Print Assumptions C37_candidates_with_timer.
